@@ -47,12 +47,12 @@ var Meta = map[string]PropMeta{
 	"C19": {
 		Level:     "exploration",
 		Technique: "deterministic simulation: real daemon accept loop (Server.Serve) on a simulated listener whose connections carry chosen peer addresses; reference daemon client asks for the module; independent first-match model written with net/netip as oracle; thorough tier enumerates the whole rule-pool product",
-		Rule:      "rule lists of length 0..3 from a pool of 31 rules (allow/deny x all, /0, /8, /24, /32, /128, IPv4-mapped prefixes, nested and disjoint networks, and malformed rules: missing space, unknown action, bare address, bad prefix length, double space, trailing space, upper case, bad octet, empty) x addresses from a pool of 26 (IPv4, IPv6, IPv4-mapped IPv6 on and around every prefix boundary). Oracle: '@RSYNCD: OK' and a complete session iff the first rule containing the address says allow or no rule matches; otherwise (also when evaluation reaches a malformed rule) an @ERROR line followed by EOF with no further byte. quick samples lists and 6 addresses per list; thorough enumerates all 1+31+31^2+31^3 = 30784 lists x all 26 addresses. Non-trivial = non-empty rule list",
+		Rule:      "rule lists of length 0..3 from a pool of 34 rules (allow/deny x all, /0, /8, /24, /32, /128, IPv4-mapped prefixes, nested and disjoint networks, and malformed rules: missing space, unknown action (with 'all', and with a valid network so that only a non-matching address exposes a skipped check), bare address, bad prefix length, double space, trailing space, upper case, bad octet, empty) x addresses from a pool of 26 (IPv4, IPv6, IPv4-mapped IPv6 on and around every prefix boundary). Oracle: '@RSYNCD: OK' and a complete session iff the first rule containing the address says allow or no rule matches; otherwise (also when evaluation reaches a malformed rule) an @ERROR line followed by EOF with no further byte. quick samples lists and 6 addresses per list; thorough enumerates all 1+34+34^2+34^3 = 40495 lists x all 26 addresses. Non-trivial = non-empty rule list",
 		Assumptions: []string{"input/configuration-quantified (pure decision function); the simulated network supplies arbitrary peer addresses, which real sockets cannot", "independent model semantics for IPv4-mapped addresses: an IPv4 prefix contains the corresponding mapped IPv6 address and vice versa (what net.IPNet.Contains does)"},
 		Real:      realCommon, Stub: append([]string{"client: reference daemon client"}, stubCommon...),
 		Quick:     q(600, 50*time.Second),
-		Thorough:  TierCfg{Runs: 31000, Budget: 40 * time.Minute, JobTimeout: 180 * time.Second},
-		EnumTotal: 30784,
+		Thorough:  TierCfg{Runs: 41000, Budget: 50 * time.Minute, JobTimeout: 180 * time.Second},
+		EnumTotal: 40495,
 	},
 	"C20": {
 		Level:     "exploration",
@@ -100,8 +100,9 @@ var Meta = map[string]PropMeta{
 		Rule:      "2-9 hostile entries per list drawn from 34 name vectors (.. components, absolute names, names through pre-existing symlinks pointing out of the root, names through symlinks sent earlier in the same list (evil -> ../sibling_dir, evil2 -> absolute dir, evil_up -> ..), a/../.. forms, name-prefix siblings) x entry types regular file (basis open, temp file, rename), directory (mkdir, chmod, chtimes), symlink, fifo, socket, char device (mknod), with a random subset of -l -p -t -o -g -D --delete -I -c so that chmod/chtimes/chown/delete are attempted; module side also draws the upload sub-directory from {'', sub/, link_out/, link_up/, ../, ../sibling_dir/, link_abs/, a/../../}. Oracle: every object outside the root (sibling file, sibling directory, name-prefix sibling, absolute-path canary, /etc probe) has identical existence, content, mode, mtime, owner at every 16th scheduler step and at the end; no request carries the block signature of a canary. Any error or skip is acceptable. Non-trivial = every run",
 		Assumptions: []string{"runs as root, so ownership and device creation are really attempted", "a crash of the receiver is recorded as a probe here and judged by C08"},
 		Real:      realCommon, Stub: append([]string{"hostile peer: reference sender"}, stubCommon...),
-		Quick:     q(400, 50*time.Second),
+		Quick:     q(600, 50*time.Second),
 		Thorough:  q(30000, 20*time.Minute),
+		EnumTotal: 2448, // 34 vectors x 6 types x 6 option sets x 2 sides, enumerated first by the thorough tier
 	},
 	"C06": {
 		Level:     "exploration",
@@ -161,7 +162,7 @@ var Meta = map[string]PropMeta{
 	"C12": {
 		Level:     "exploration",
 		Technique: "deterministic simulation: a reference protocol-27 sender serves the real receiving client a file list and destination files constructed to hit every cell of the update decision table; the oracle is the set of file indices the real generator requests, read off the wire by the reference sender. Repeat-sync idempotence with real sender and receiver is decided by decoding both recorded wire directions",
-		Rule:      "table mode: per run one option combination of {-r} x {-t} x {-c} x {-I} (8 combinations, by run index) and the complete table {missing, same size + same content, other size, same size + other content} x {mtime equal, +1 s, -1 s, sub-second difference only, far future, far past} plus directory/symlink in the way, names and wire order random; oracle: requested set == model (missing | not regular | size differs | -c: content differs | -I | mtime differs at 1 s granularity). repeat mode (every 4th run): real A1 sync of a random tree twice with -t/-a/-tc: second run must request nothing and move no literal byte; then the size, mtime or content of one source file is changed and exactly the rule-mandated request must follow. Non-trivial = >= 10 decided entries / first run requested files",
+		Rule:      "table mode: per run one option combination of {-r} x {-t} x {-c} x {-I} (8 combinations, by run index) and the complete table {missing, same size + same content, other size, same size + other content} x {mtime equal, +1 s, -1 s, sub-second difference only, previous second but less than 1 s away, next second with fraction, far future, far past} plus directory/symlink in the way, names and wire order random; oracle: requested set == model (missing | not regular | size differs | -c: content differs | -I | mtime differs at 1 s granularity). repeat mode (every 4th run): real A1 sync of a random tree twice with -t/-a/-tc: second run must request nothing and move no literal byte; then the size, mtime or content of one source file is changed and exactly the rule-mandated request must follow. Non-trivial = >= 10 decided entries / first run requested files",
 		Assumptions: []string{"refproto sender is the trusted base", "mtimes within the signed 32-bit range"},
 		Real:      realCommon, Stub: append([]string{"table mode: sending peer is the reference sender"}, stubCommon...),
 		Quick:     q(200, 50*time.Second),
